@@ -62,14 +62,14 @@ CONSTANTS MaxRank,     \* ranks are 0..MaxRank
 Ranks == 0..MaxRank
 AllDevs == {"double-max-sentinel-dbl-min", "long-value-rounded-onto-boundary", "diff-sum-not-computed"}
 
-VARIABLES tab, B, mm, temp,   \* configuration, chosen in Init
+VARIABLES tab, B, bs, mm, temp,   \* configuration, chosen in Init (bs = B as an ascending sequence)
           obj,                \* direct: [slot -> object]
           rd,                 \* pipe: [reader -> [key -> [since, seen, acc, cum]]]
           nagg, nops, turn,
           hist
 
-cvars == <<tab, B, mm, temp>>
-bvars == <<tab, B, mm, temp, obj, rd, nagg, nops, turn>>
+cvars == <<tab, B, bs, mm, temp>>
+bvars == <<tab, B, bs, mm, temp, obj, rd, nagg, nops, turn>>
 vars  == <<bvars, hist>>
 
 (* ---- abstract facts of the concretisation tables ---------------------- *)
@@ -87,8 +87,12 @@ BMinus(b, a) == [r \in Ranks |-> b[r] - a[r]]
 RECURSIVE SumUpTo(_, _)
 SumUpTo(f, n) == IF n < 0 THEN 0 ELSE f[n] + SumUpTo(f, n - 1)
 BSize(b) == SumUpTo(b, MaxRank)
-BMin(b) == CHOOSE r \in Ranks : b[r] > 0 /\ \A q \in Ranks : b[q] > 0 => r <= q
-BMax(b) == CHOOSE r \in Ranks : b[r] > 0 /\ \A q \in Ranks : b[q] > 0 => q <= r
+RECURSIVE FirstFrom(_, _)
+FirstFrom(b, r) == IF b[r] > 0 THEN r ELSE FirstFrom(b, r + 1)
+RECURSIVE LastFrom(_, _)
+LastFrom(b, r) == IF b[r] > 0 THEN r ELSE LastFrom(b, r - 1)
+BMin(b) == FirstFrom(b, 0)            \* only used on non-empty multisets
+BMax(b) == LastFrom(b, MaxRank)
 BSeq(b) == [i \in 1..(MaxRank + 1) |-> b[i - 1]]
 RECURSIVE SumSeq(_)
 SumSeq(s) == IF s = <<>> THEN 0 ELSE Head(s) + SumSeq(Tail(s))
@@ -97,8 +101,8 @@ SumSeq(s) == IF s = <<>> THEN 0 ELSE Head(s) + SumSeq(Tail(s))
 RECURSIVE AscSeq(_)
 AscSeq(S) == IF S = {} THEN <<>>
               ELSE LET m == CHOOSE x \in S : \A y \in S : x <= y IN <<m>> \o AscSeq(S \ {m})
-Bs == AscSeq(B)
-NB == Cardinality(B)
+Bs == bs
+NB == Len(bs)
 \* the statement: bucket i (1-based here) holds boundary[i-1] < v <= boundary[i]; the last one
 \* everything above the top boundary
 InBucket(v, i) == /\ (i = 1 \/ Bs[i - 1] < v)
@@ -109,8 +113,10 @@ BucketOf(v) == Cardinality({b \in B : b < v}) + 1
 (* ---- property level: the summary of a multiset ------------------------- *)
 \* S: set of deviations assumed present (only alternatives use S # {})
 EffRank(v, S) == IF "long-value-rounded-onto-boundary" \in S /\ Kind(tab) = "long" THEN RoundsTo(tab, v) ELSE v
-CountsOf(bag, S) == [i \in 1..(NB + 1) |->
-                       SumUpTo([r \in Ranks |-> IF InBucket(EffRank(r, S), i) THEN bag[r] ELSE 0], MaxRank)]
+RECURSIVE CntIn(_, _, _, _)
+CntIn(bag, S, i, n) == IF n < 0 THEN 0
+                       ELSE (IF InBucket(EffRank(n, S), i) THEN bag[n] ELSE 0) + CntIn(bag, S, i, n - 1)
+CountsOf(bag, S) == [i \in 1..(NB + 1) |-> CntIn(bag, S, i, MaxRank)]
 \* JSON-friendly observable projection. sum is the multiset (per-rank multiplicities) whose exact
 \* concrete sum the replayer computes; min/max = -1: not compared; max = -2: the DBL_MIN sentinel
 PointOf(bag, sbag, mmOn, S) ==
@@ -161,7 +167,7 @@ TChar(d) == IF d = 1 THEN "d" ELSE "c"
 RC(c) == IF c < 10 THEN <<TChar(c)>> ELSE <<TChar(c \div 10), TChar(c % 10)>>
 
 Init ==
-  /\ tab \in Tables /\ B \in BoundSets /\ mm \in MMChoices
+  /\ tab \in Tables /\ B \in BoundSets /\ bs = AscSeq(B) /\ mm \in MMChoices
   /\ temp \in (IF Mode = "pipe" THEN {RC(c) : c \in ReaderCfgs} ELSE {<<>>})
   /\ obj = [s \in Slots |-> NoObj]
   /\ rd = [r \in Readers |-> [k \in Keys |-> Cell0]]
@@ -245,45 +251,49 @@ Next == DNewA \/ DAggA \/ DMergeA \/ DDiffA \/ PRecordA \/ PCollectA \/ PickA
 Spec == Init /\ [][Next]_vars
 
 (* ---- the property (C07), evaluated in every reachable state ------------- *)
-\* every point the state holds, with the multiset it has to summarise and whether min/max apply
-Points ==
-  {[p |-> obj[s].pt, bag |-> obj[s].bag, mmv |-> obj[s].mmv] : s \in {t \in Slots : obj[t].live}}
-  \cup {[p |-> rd[r][k].acc, bag |-> rd[r][k].since, mmv |-> mm] : r \in Readers, k \in Keys}
-  \cup {[p |-> rd[r][k].cum, bag |-> rd[r][k].seen, mmv |-> mm] : r \in Readers, k \in Keys}
-  \* the point a cumulative reader is shown = merge of what it saw before and the new interval
-  \cup {[p |-> MergeP(rd[r][k].cum, rd[r][k].acc), bag |-> BUnion(rd[r][k].seen, rd[r][k].since), mmv |-> mm] :
-           r \in Readers, k \in Keys}
+\* every point the state holds, with the multiset it has to summarise and whether min/max apply:
+\* the objects (direct); per reader and key the running interval point, the cumulative point, and
+\* the point a cumulative reader is shown next = merge of what it saw before and the new interval
+ForAllPoints(P(_, _, _)) ==
+  /\ \A s \in Slots : obj[s].live => P(obj[s].pt, obj[s].bag, obj[s].mmv)
+  /\ \A r \in Readers, k \in Keys :
+        /\ P(rd[r][k].acc, rd[r][k].since, mm)
+        /\ P(rd[r][k].cum, rd[r][k].seen, mm)
+        /\ P(MergeP(rd[r][k].cum, rd[r][k].acc), BUnion(rd[r][k].seen, rd[r][k].since), mm)
 
 TypeOK == /\ B \subseteq Ranks /\ tab \in Tables /\ mm \in BOOLEAN
-          /\ \A x \in Points : Len(x.p.counts) = NB + 1
-BucketsPartition == \A x \in Points : SumSeq(x.p.counts) = x.p.count /\ x.p.count = BSize(x.bag)
-BucketRule == \A x \in Points : \A i \in 1..(NB + 1) :
-                x.p.counts[i] = SumUpTo([r \in Ranks |-> IF InBucket(r, i) THEN x.bag[r] ELSE 0], MaxRank)
+          /\ Len(bs) = Cardinality(B) /\ \A i \in 1..Len(bs) : bs[i] \in B /\ (i > 1 => bs[i - 1] < bs[i])
+          /\ ForAllPoints(LAMBDA p, bag, mmv : Len(p.counts) = NB + 1)
+BucketsPartition == ForAllPoints(LAMBDA p, bag, mmv : SumSeq(p.counts) = p.count /\ p.count = BSize(bag))
+BucketRule == ForAllPoints(LAMBDA p, bag, mmv : \A i \in 1..(NB + 1) : p.counts[i] = CntIn(bag, {}, i, MaxRank))
 EveryValueInOneBucket == \A v \in Ranks : Cardinality({i \in 1..(NB + 1) : InBucket(v, i)}) = 1
                                           /\ InBucket(v, BucketOf(v))
-SumExact == \A x \in Points : x.p.bag = x.bag
-MinMaxExact == \A x \in Points : (x.mmv /\ x.p.count > 0) =>
-                  /\ x.p.mmv
-                  /\ x.p.min = BMin(x.bag) /\ x.p.max = BMax(x.bag)
-PointIsSummary == \A x \in Points : ViewP(x.p) = PointOf(x.bag, x.bag, x.mmv, {})
-\* merging ANY two points of the state = summarising the union of their multisets; Diff undoes it
+SumExact == ForAllPoints(LAMBDA p, bag, mmv : p.bag = bag)
+MinMaxExact == ForAllPoints(LAMBDA p, bag, mmv : (mmv /\ p.count > 0) =>
+                              (p.mmv /\ p.min = BMin(bag) /\ p.max = BMax(bag)))
+PointIsSummary == ForAllPoints(LAMBDA p, bag, mmv : ViewP(p) = PointOf(bag, bag, mmv, {}))
+\* merging ANY two objects = summarising the union of their multisets; Diff undoes it
+Live == {s \in Slots : obj[s].live}
 MergeIsHomomorphism ==
-  \A x, y \in Points : ViewP(MergeP(x.p, y.p)) = PointOf(BUnion(x.bag, y.bag), BUnion(x.bag, y.bag), x.mmv /\ y.mmv, {})
+  \A a, b \in Live : ViewP(MergeP(obj[a].pt, obj[b].pt)) =
+                        PointOf(BUnion(obj[a].bag, obj[b].bag), BUnion(obj[a].bag, obj[b].bag), obj[a].mmv /\ obj[b].mmv, {})
 DiffIsInverse ==
-  \A x, y \in Points : /\ ViewP(DiffP(x.p, MergeP(x.p, y.p))) = PointOf(y.bag, y.bag, FALSE, {})
-                       /\ BLeq(x.bag, y.bag) => ViewP(DiffP(x.p, y.p)) = PointOf(BMinus(y.bag, x.bag), BMinus(y.bag, x.bag), FALSE, {})
+  \A a, b \in Live :
+     /\ ViewP(DiffP(obj[a].pt, MergeP(obj[a].pt, obj[b].pt))) = PointOf(obj[b].bag, obj[b].bag, FALSE, {})
+     /\ BLeq(obj[a].bag, obj[b].bag) =>
+           ViewP(DiffP(obj[a].pt, obj[b].pt)) = PointOf(BMinus(obj[b].bag, obj[a].bag), BMinus(obj[b].bag, obj[a].bag), FALSE, {})
 \* pipeline: what a reader has been shown plus what it has not yet been shown is the same for all readers
 ReadersAgree == \A r, q \in Readers, k \in Keys :
                    BUnion(rd[r][k].seen, rd[r][k].since) = BUnion(rd[q][k].seen, rd[q][k].since)
 \* a deviation alternative exists only in its own narrow situation
 DevsAreNarrow ==
-  \A x \in Points :
-    LET o == [bag |-> x.bag, sd |-> x.bag, mmv |-> x.mmv] IN
+  ForAllPoints(LAMBDA p, bag, mmv :
+    LET o == [bag |-> bag, sd |-> bag, mmv |-> mmv] IN
     /\ AltOf(o, {"double-max-sentinel-dbl-min"}) # ExpOf(o)
-         => (Kind(tab) = "double" /\ x.mmv /\ BSize(x.bag) > 0 /\ BMax(x.bag) <= BelowDblMin(tab))
+         => (Kind(tab) = "double" /\ mmv /\ BSize(bag) > 0 /\ BMax(bag) <= BelowDblMin(tab))
     /\ AltOf(o, {"long-value-rounded-onto-boundary"}) # ExpOf(o)
-         => (Kind(tab) = "long" /\ \E r \in Ranks : x.bag[r] > 0 /\ RoundsTo(tab, r) # r /\ RoundsTo(tab, r) \in B)
-    /\ AltOf(o, {"diff-sum-not-computed"}) = ExpOf(o)     \* sd = bag: never differs unless a Diff happened
+         => (Kind(tab) = "long" /\ \E r \in Ranks : bag[r] > 0 /\ RoundsTo(tab, r) # r /\ RoundsTo(tab, r) \in B)
+    /\ AltOf(o, {"diff-sum-not-computed"}) = ExpOf(o))    \* sd = bag: never differs unless a Diff happened
 DiffAltOnlyAfterDiff == \A s \in Slots : obj[s].live /\ obj[s].sd # obj[s].bag => nops > 0
 
 Bound == nagg <= MaxAgg /\ nops <= MaxOps
